@@ -208,3 +208,63 @@ pub fn self_test() -> Result<(usize, u64), String> {
     }
     Ok((s.len(), total))
 }
+
+fn ord_name(o: Ord) -> &'static str {
+    match o {
+        Ord::Relaxed => "rlx",
+        Ord::Acquire => "acq",
+        Ord::Release => "rel",
+        Ord::AcqRel => "acqrel",
+        Ord::SeqCst => "sc",
+    }
+}
+
+/// The suite in the line format litmus-loom reads (one source of truth for both sides).
+pub fn dump() -> String {
+    let mut out = String::new();
+    for l in suite() {
+        out += &format!("P {}|{}|{}\n", l.name, l.nloc, l.nregs);
+        for t in &l.threads {
+            out += "T\n";
+            for op in t {
+                out += &match op {
+                    Op::St(loc, v, o) => format!("st {loc} {v} {}\n", ord_name(*o)),
+                    Op::Ld(r, loc, o) => format!("ld {r} {loc} {}\n", ord_name(*o)),
+                    Op::Rmw(loc, v, o) => format!("rmw {loc} {v} {}\n", ord_name(*o)),
+                    Op::Fence(o) => format!("fence {}\n", ord_name(*o)),
+                };
+            }
+        }
+    }
+    out
+}
+
+/// Compare loom's output (lines `R name|iterations|seconds|r,r;r,r`) with the simulator's full
+/// (unfiltered) outcome sets. Returns a JSON report; Err if loom produced an outcome the simulator
+/// does not allow.
+pub fn compare_with_loom(loom_out: &str) -> Result<serde_json::Value, String> {
+    let mut rep = vec![];
+    for line in loom_out.lines() {
+        let rest = match line.strip_prefix("R ") {
+            Some(r) => r,
+            None => continue,
+        };
+        let f: Vec<&str> = rest.split('|').collect();
+        if f.len() < 4 {
+            continue;
+        }
+        let l = match suite().into_iter().find(|l| l.name == f[0]) {
+            Some(l) => l,
+            None => continue,
+        };
+        let loom_set: BTreeSet<Vec<u8>> = f[3].split(';').filter(|s| !s.is_empty()).map(|s| s.split(',').map(|x| x.parse().unwrap_or(255)).collect()).collect();
+        let unfiltered = Litmus { filter: None, expected: BTreeSet::new(), name: l.name, nloc: l.nloc, nregs: l.nregs, threads: l.threads.clone() };
+        let (sim_set, _) = outcomes(&unfiltered);
+        let extra: Vec<&Vec<u8>> = loom_set.difference(&sim_set).collect();
+        if !extra.is_empty() {
+            return Err(format!("litmus '{}': loom produces outcomes {:?} that the simulator does not allow (the simulator would be stronger than an independent implementation of the model)", l.name, extra));
+        }
+        rep.push(serde_json::json!({"program": l.name, "loom_iterations": f[1].parse::<u64>().unwrap_or(0), "loom_seconds": f[2].parse::<f64>().unwrap_or(0.0), "loom_outcomes": loom_set.len(), "simulator_outcomes": sim_set.len(), "equal": loom_set == sim_set}));
+    }
+    Ok(serde_json::json!(rep))
+}
